@@ -27,7 +27,7 @@ import (
 const vrtPath = "verif.local/vrt"
 
 var pkgPathOf string
-var vtimePkgs, vrandPkgs = map[string]bool{}, map[string]bool{}
+var vtimePkgs, vrandPkgs, vcrandPkgs = map[string]bool{}, map[string]bool{}, map[string]bool{}
 
 const vsyncPath = "verif.local/vrt/vsync"
 
@@ -307,6 +307,13 @@ func (r *rw) file(f *ast.File) {
 					imp.Name = ast.NewIdent("rand")
 				}
 			}
+		case `"crypto/rand"`:
+			if vcrandPkgs[pkgPathOf] {
+				imp.Path.Value = strconv.Quote(vrtPath + "/vcrand")
+				if imp.Name == nil {
+					imp.Name = ast.NewIdent("rand")
+				}
+			}
 		case `"sync"`:
 			imp.Path.Value = strconv.Quote(vsyncPath)
 			if imp.Name == nil {
@@ -475,7 +482,7 @@ func rewriteConst(files []*ast.File, name, expr string) int {
 }
 
 func main() {
-	var out, dir, tags, vt, vr string
+	var out, dir, tags, vt, vr, vcr string
 	var consts multi
 	var inplace, crash bool
 	flag.StringVar(&out, "out", "", "output directory")
@@ -483,6 +490,7 @@ func main() {
 	flag.StringVar(&tags, "tags", "", "build tags")
 	flag.StringVar(&vt, "vtime", "", "comma-separated package paths whose time import becomes vtime")
 	flag.StringVar(&vr, "vrand", "", "comma-separated package paths whose math/rand import becomes vrand")
+	flag.StringVar(&vcr, "vcrand", "", "comma-separated package paths whose crypto/rand import becomes vcrand (deterministic inside a run)")
 	flag.Var(&consts, "const", "pkgpath.Name=expr (repeatable)")
 	flag.BoolVar(&inplace, "inplace", false, "overwrite the loaded files (scratch copies only)")
 	flag.BoolVar(&crash, "crash", false, "insert crash points before persistence operations instead of scheduling points")
@@ -495,6 +503,11 @@ func main() {
 	for _, p := range strings.Split(vr, ",") {
 		if p != "" {
 			vrandPkgs[p] = true
+		}
+	}
+	for _, p := range strings.Split(vcr, ",") {
+		if p != "" {
+			vcrandPkgs[p] = true
 		}
 	}
 	if out == "" && !inplace {
